@@ -649,6 +649,19 @@ Proof.
   do 2 eexists. split; [vm_compute; reflexivity|]. repeat (split; [vm_compute; reflexivity|]). vm_compute. reflexivity.
 Qed.
 
+(* FULL STATEMENT (false of the code, finding F9): defining a bias and deleting it restores every feature state of its variables.
+   Counterexample on the real tables: the bias requests hide_Jacobian_force (12, a user feature) of its variable by a top-level
+   enable (abf with hideJacobian on); nothing counts that request, so no deletion can give it back
+   (C13_deletions_keep_uncounted_requests): after the deletion of its ONLY holder the feature is still on, and off in the
+   history in which the bias never existed.  Replayed on the implementation every run (witness W_F9). *)
+Theorem C13_define_delete_holder_identity_refuted : exists m0 m m',
+  m_run gen_tables 40 f9_base (m_empty 3) = Some m0 /\ is_enabled (m_objs m0) 0 12 = false /\
+  m_run gen_tables 40 f9_holder m0 = Some m /\ is_enabled (m_objs m) 0 12 = true /\ rc (m_objs m) 0 12 = 0%Z /\
+  m_run gen_tables 40 [MDeleteBias 3] m = Some m' /\ alive_in (m_info m') 3 = false /\
+  is_enabled (m_objs m') 0 12 = true /\ is_enabled (m_objs m') 0 11 = true.
+Proof. exact only_holder_witness. Qed.
+Print Assumptions C13_define_delete_holder_identity_refuted.
+
 (* ==== references to another object by NAME ====
    The only reference by name that the library follows while running is colvar::calc_acf (corrFuncWithColvar): the rule it relies
    on, and that this model states, is that the name is RESOLVED AT EVERY USE in the table of live objects (cvm::colvar_by_name),
